@@ -409,7 +409,18 @@ def run_unencodable(spec, acc):
     dec = NMEA2000Decoder()
     pool = hist.Pool(dbx, rng, n_single=6, n_fast=6, only_encodable=True)
     bad = []
-    for d in (pool.singles + pool.fasts)[: 6 if quick else 12]:
+    good_fast = None
+    for d_ in pool.fasts:
+        pb_ = pool.payload(d_)
+        if pb_ is not None and len(pb_) > 8:
+            try:
+                good_fast = dec.decode_basic_string(wire.plain_line(3, d_.pgn, 9, 255, pb_), already_combined=True)
+                NMEA2000Encoder().encode_ebyte(copy.deepcopy(good_fast))
+                break
+            except Exception:  # noqa: BLE001
+                good_fast = None
+    half_ = 3 if quick else 6
+    for d in pool.singles[:half_] + pool.fasts[:half_]:          # single-frame and multi-packet definitions alike
         pb = pool.payload(d)
         good = dec.decode_basic_string(wire.plain_line(3, d.pgn, 9, 255, pb), already_combined=True)
         m1 = copy.deepcopy(good)
@@ -488,6 +499,43 @@ def run_unencodable(spec, acc):
             else:
                 key = "unencodable-message-disturbed-connection" + (":format-without-encoder" if label == "format_without_encoder" else "")
             acc.violation(key, f"{kind}/{label}: before send (writes, status, attempts, state) = {b}, after = {a}", w)
+        # the refused message between two good multi-packet messages: what goes out is exactly what the encoder produces for the two
+        # good ones alone, sequence counters included - "as if the bad message had never been given"
+        if kind != "actisense" and good_fast is not None:
+            async def scenario_sw(sim, m=m):
+                sim.spawn("connect")
+                await asyncio.sleep(0.1)
+                conn = sim.conns[-1]
+                sim.sent_from = len(conn.written)
+                await sim.call("send", copy.deepcopy(good_fast))
+                await sim.call("send", m)
+                await sim.call("send", copy.deepcopy(good_fast))
+                await asyncio.sleep(1.0)
+                await sim.close_guarded()
+            sim, stats = simgw.run_session(kind, scenario_sw)
+            acc.count("sessions")
+            if stats["error"] or not sim.conns:
+                acc.inconclusive_because(f"simulator: {stats['error']}")
+            else:
+                ref_enc = NMEA2000Encoder()
+                fn_ = {"ebyte": ref_enc.encode_ebyte, "waveshare": ref_enc.encode_usb, "yd": ref_enc.encode_yacht_devices}[kind]
+                want_ = b"".join(fn_(copy.deepcopy(good_fast))) + b"".join(fn_(copy.deepcopy(good_fast)))
+                got_ = b"".join(d_ for _, d_ in sim.conns[-1].written[sim.sent_from:])
+                acc.count("refused_messages_between_two_good_ones_checked")
+                # (the 3-bit sequence counter is left out of the comparison: whether a refused message uses one up is not
+                # something the statement fixes - the pinned tree uses one up for an addressed multi-packet message without a
+                # destination - and no receiver can tell; identifiers, lengths, data and the order of the packets are compared)
+                pg_, pw_ = parse_log(kind, got_), parse_log(kind, want_)
+                if pg_ is not None and pw_ is not None:
+                    same_ = [(i_, bytes([f_[0] & 0x1F]) + f_[1:]) for i_, f_ in pg_] == [(i_, bytes([f_[0] & 0x1F]) + f_[1:]) for i_, f_ in pw_]
+                    counters_ = {f_[0] >> 5 for _, f_ in pg_[:len(pg_) // 2]}, {f_[0] >> 5 for _, f_ in pg_[len(pg_) // 2:]}
+                    same_ = same_ and len(counters_[0]) == 1 and len(counters_[1]) == 1 and counters_[0] != counters_[1]
+                else:
+                    same_ = got_ == want_
+                if not same_:
+                    acc.violation("unencodable-message-left-a-trace-in-the-next-message", f"{kind}/{label}: good, refused, good: the wire carries {len(got_)} bytes that are not the "
+                                  f"encoder's packets for the two good messages alone (first difference at byte {next((i_ for i_, (a_, b_) in enumerate(zip(got_, want_)) if a_ != b_), min(len(got_), len(want_)))})",
+                                  dict(w, wire_hex=got_.hex()[:400], expected_hex=want_.hex()[:400]))
         # the same message on a client that was created but never connected: nothing to write on, and still no
         # connection, no state change, no status notification, no exception
         async def scenario_nc(sim, m=m):
@@ -509,6 +557,32 @@ def run_unencodable(spec, acc):
                           f"{kind}/{label}: client never connected; before send (writes, status, attempts, state) = {sim.before}, after = {sim.after}", w)
 
 
+def reassemble(frames):
+    """Reference fast-packet receiver for ONE stream: list of frame data (first byte = counter << 5 | frame number) -> payloads
+    of the messages it completes."""
+    out = []
+    cur = None          # [counter, total length, {frame number: bytes}]
+    for f in frames:
+        if not f:
+            continue
+        ctr, no = f[0] >> 5, f[0] & 0x1F
+        if no == 0:
+            if cur is not None and cur[0] == ctr and 0 in cur[2]:
+                continue                      # a first frame it already has
+            if len(f) < 2:
+                continue
+            cur = [ctr, f[1], {0: f[2:]}]
+        else:
+            if cur is None or cur[0] != ctr or no in cur[2]:
+                continue
+            cur[2][no] = f[1:]
+        have = b"".join(cur[2][k] for k in sorted(cur[2]))
+        if sorted(cur[2]) == list(range(len(cur[2]))) and len(have) >= cur[1]:
+            out.append(have[:cur[1]])
+            cur = None
+    return out
+
+
 def run_write_failure(spec, acc):
     dbx = refdb.db()
     kind = spec["kind"]
@@ -520,6 +594,11 @@ def run_write_failure(spec, acc):
         m = long_message(dbx, rng, box, 40, 40)
         n = len(reference_packets(kind, m))
         done_ = set()
+        # (the next message of the same source has another content; with the stub codec the content is looked up by source
+        # when the message is encoded)
+        box_cut = bytes(box[40]) if box.get("_seam") else None
+        box_next = bytes((7 * k + 3) % 256 for k in range(33))
+        m_next = m if box.get("_seam") else None
         # one drain() fails while other senders are queued behind it (write direction hiccup, reads silent): the
         # client must still come back CONNECTED on a new link
         others = [long_message(dbx, rng, box, 41 + j, 20) for j in range(2)]
@@ -603,8 +682,33 @@ def run_write_failure(spec, acc):
                 await asyncio.wait([t_], timeout=60.0)
                 sim.send_returned = t_.done()
                 await asyncio.sleep(30.0)
+                # the application goes on: the next multi-packet message of the same source, on the connection the client has
+                # opened meanwhile
+                if len(sim.conns) > 1 and sim.client.state.name == "CONNECTED" and m_next is not None:
+                    box[40] = box_next
+                    await sim.call("send", m_next)
+                    await asyncio.sleep(1.0)
+                    sim.next_sent = True
                 await sim.close_guarded()
             sim, stats = simgw.run_session(kind, scenario, status_cb=scb_)
+            if box_cut is not None:
+                box[40] = box_cut
+            if not stats["error"] and getattr(sim, "next_sent", False) and box.get("_seam"):
+                # everything that reached the gateway, on the old link and on the new one, as one receiver on the bus sees it: a
+                # receiver that follows the fast-packet rules (a first frame with another counter starts over; frames it has are
+                # not taken twice) reassembles only payloads somebody sent - the message cut by the failure never completes, the
+                # next one does, and nothing else appears
+                frames_ = []
+                for c_ in sim.conns:
+                    pk_ = parse_log(kind, b"".join(d_ for _, d_ in c_.written))
+                    frames_ += [f_ for _, f_ in (pk_ or [])]
+                got_payloads = reassemble(frames_)
+                sent_ = {box_cut, bytes(box_next)}
+                acc.count("wire_of_both_connections_reassembled_by_a_reference_receiver")
+                if bytes(box_next) not in got_payloads or any(p_ not in sent_ for p_ in got_payloads):
+                    acc.violation("receiver-reassembles-a-message-nobody-sent", f"{kind}: write failure at packet {i}, reconnect, next message: a receiver that saw both links "
+                                  f"reassembles {[p_.hex()[:24] for p_ in got_payloads]} (sent: cut message {box_cut.hex()[:24]}.., next message {bytes(box_next).hex()[:24]}..)",
+                                  {"client": kind, "failing_packet": i})
             if not stats["error"] and not getattr(sim, "send_returned", True):
                 acc.violation("send-never-returns-after-write-failure", f"{kind}: send() whose write failed at packet {i} had not returned 60 virtual s later (status callback: {scb_})",
                               {"client": kind, "failing_packet": i, "status_callback": scb_, "status": sim.status})
